@@ -321,10 +321,20 @@ def r9_4(ctx):
     prog = ctx.prog
     g = prog.fn("Outcome::generate_testcase_expression")
     lits = []
+    loop_blocks = set()
+    for b_, h_ in g.back_edges():
+        loop_blocks |= {x for x in g.reachable(h_) if b_ in g.reachable(x)}
     for b in [g] + prog.closures_of(g):
+        ob = Origins(b)
         for bb, ps in _fmt_literals(b):
             if isinstance(ps[0], str):
                 lits.append((b, bb, ps[0]))
+        # literal pieces appended with push_str (`generated.push_str("> "); generated.push_str(&line)`)
+        for bb, t in b.calls():
+            if mname(t) == "String::push_str":
+                a = peel(ob.operand(t["args"][1]))
+                if a.kind == "const" and a.a.as_str() is not None:
+                    lits.append((b, bb, a.a.as_str()))
     prefixes = sorted({l for _, _, l in lits})
     lp = prog.fn("LineParser::add_testcase_body")
     olp = Origins(lp)
@@ -338,8 +348,8 @@ def r9_4(ctx):
               "the generator writes commands with %s and the parser strips exactly %s" % (prefixes, stripped_s),
               "writer prefixes %s differ from the prefixes the line parser strips %s" % (prefixes, stripped_s))
     # first line `$ `, continuation lines `> ` (skip(1))
-    first = [l for b, bb, l in lits if b is g]
-    cont = [l for b, bb, l in lits if b is not g]
+    first = [l for b, bb, l in lits if b is g and bb not in loop_blocks]
+    cont = [l for b, bb, l in lits if b is not g or bb in loop_blocks]
     ctx.check(first == ["$ "] and cont == ["> "], "prefix-roles", g.where(), "first expression line gets `$ `, every further line `> `",
               "first line prefixes %s, continuation prefixes %s" % (first, cont))
     # exit code: emitted exactly when code != 0, as `[{}]\n`
@@ -444,6 +454,8 @@ def r9_7(ctx):
                   "the expression lines are split at newlines, terminated and prefixed - nothing else",
                   "generate_testcase_expression applies %s while rendering the command: trailing blanks / tabs of a command line (e.g. inside a here-document) are lost, "
                   "the rewritten test no longer runs the original command" % bad)
+    if n < 2:
+        ctx.ok("command-verbatim:no-closure", g.where(), "continuation lines are rendered in the function body itself (no closure)")
     o = Origins(g)
     src = [t for _, t in g.calls() if mname(t) in ("SplitLinesByNewline::split_at_newline",)]
     ctx.check(len(src) == 1 and any(nn.kind == "field" and nn.a == "shell_expression" for nn in o.operand(src[0]["args"][0]).walk()), "command-source", g.where(),
